@@ -104,16 +104,17 @@ def posAll (C : Codec) (fid : Nat) (f : ByteArray) : List ByteArray → List Pos
 def allZeroFrom (f : ByteArray) (i : Nat) : Bool := (f.extract i f.size).data.all (· == 0)
 
 /-- one loop iteration of `DataReader.next`: decode the chunk at (block, off).
-    An undecodable chunk is the end of the log when it is cut short by the end of the file or
-    when only zeros follow; otherwise it is an error. -/
-def chunkSeq (C : Codec) (f : ByteArray) (block off : Nat) : Out (ByteArray × CT) :=
+    `tol` is the reader's `tolerateTornTail` flag (`reader.TolerateTornTail()`, set only for the
+    active file).  An undecodable chunk is the end of the log when only zeros follow, or — for a
+    tolerant reader only — when it is cut short by the end of the file; otherwise it is an error. -/
+def chunkSeq (C : Codec) (tol : Bool) (f : ByteArray) (block off : Nat) : Out (ByteArray × CT) :=
   let base := block * BS
   if base ≥ f.size then .eof else
   let size := min (f.size - base) BS
   if off ≥ size then .eof else
   match C.dec (f.extract (base + off) (base + size)) with
   | .ok p t => .ok (p, t)
-  | .incomplete => if base + size = f.size ∨ allZeroFrom f (base + off) then .eof else .err
+  | .incomplete => if (tol = true ∧ base + size = f.size) ∨ allZeroFrom f (base + off) then .eof else .err
   | .badCrc => if allZeroFrom f (base + off) then .eof else .err
 
 /-- one loop iteration of `readToBuf`: a position-based read must find a complete chunk -/
@@ -128,14 +129,14 @@ def chunkRand (C : Codec) (f : ByteArray) (block off : Nat) : Out (ByteArray × 
 
 /-- `DataReader.next`: one record starting at (block, off); returns payload, bytes occupied incl.
     headers, and the (block, off) where the last chunk ends -/
-def nextAt (C : Codec) (f : ByteArray) (block off : Nat) (fuel : Nat) : Out (ByteArray × Nat × Nat × Nat) :=
+def nextAt (C : Codec) (tol : Bool) (f : ByteArray) (block off : Nat) (fuel : Nat) : Out (ByteArray × Nat × Nat × Nat) :=
   match fuel with
   | 0 => .err
   | fuel+1 =>
-    match chunkSeq C f block off with
+    match chunkSeq C tol f block off with
     | .ok (p, t) =>
       if t = 0 ∨ t = 3 then .ok (p, H + p.size, block, off + H + p.size)
-      else match nextAt C f (block+1) 0 fuel with
+      else match nextAt C tol f (block+1) 0 fuel with
         | .ok (q, n, b', o') => .ok (p ++ q, H + p.size + n, b', o')
         | .eof => .eof
         | .err => .err
@@ -175,18 +176,19 @@ structure ScanRes where
   ok : Bool                         -- true: ended with EOF; false: ended with an error
 
 /-- the whole sequential scan (`for { reader.NextLogRecord() }`) from reader state (block, off) -/
-def scanFrom (C : Codec) (fid : Nat) (f : ByteArray) (block off validEnd : Nat) : Nat → ScanRes
+def scanFrom (C : Codec) (tol : Bool) (fid : Nat) (f : ByteArray) (block off validEnd : Nat) : Nat → ScanRes
   | 0 => { recs := [], validEnd := validEnd, ok := false }
   | n+1 =>
-    match nextAt C f block off (f.size + 1) with
+    match nextAt C tol f block off (f.size + 1) with
     | .ok (d, sz, b', o') =>
-      let r := scanFrom C fid f (rnormB b' o') (rnormO o') (b' * BS + o') n
+      let r := scanFrom C tol fid f (rnormB b' o') (rnormO o') (b' * BS + o') n
       { r with recs := (d, { fid := fid, block := block, off := off, size := sz }) :: r.recs }
     | .eof => { recs := [], validEnd := validEnd, ok := true }
     | .err => { recs := [], validEnd := validEnd, ok := false }
 
 /-- scan of a whole file; every record occupies at least H+1 bytes, so `f.size` iterations suffice -/
-def scan (C : Codec) (fid : Nat) (f : ByteArray) : ScanRes := scanFrom C fid f 0 0 0 (f.size + 1)
+def scan (C : Codec) (tol : Bool) (fid : Nat) (f : ByteArray) : ScanRes :=
+  scanFrom C tol fid f 0 0 0 (f.size + 1)
 
 end XixiKV.Frame
 
